@@ -2004,6 +2004,13 @@ def _recover_post(ctx):
                 goals.append((f"push.{cls}.addresses-iterated-stage", z3.Implies(g, I.getattr(m, "stage_id").t == z3.Select(ids, sg))))
                 if cls == "StartStage":
                     goals.append((f"push.{cls}.stage-running-or-not-started", z3.Implies(g, in_set(z3.Select(sarr, sg), I, ("RUNNING", "NOT_STARTED")))))
+                    # C01 (nothing stuck half-started): a stage that was claimed (RUNNING, start_time set) and already has its
+                    # tasks, none of them started yet, is not a zombie -- StartStage would be absorbed by the status guard --
+                    # so recovery must not answer it with StartStage (it has to start the first task instead)
+                    sel = SElem(stages.lid, (sg,))
+                    half = ctx.ev("s.start_time is not None and exists(s.tasks, lambda t: t.status == S.NOT_STARTED) "
+                                  "and not exists(s.tasks, lambda t: t.status == S.RUNNING)", {"s": sel})
+                    goals.append((f"push.{cls}.not-for-a-half-started-stage", z3.Implies(z3.And(g, z3.Select(sarr, sg) == status(I, "RUNNING")), z3.Not(half))))
                 else:
                     goals.append((f"push.{cls}.stage-running", z3.Implies(g, z3.Select(sarr, sg) == status(I, "RUNNING"))))
     return goals
